@@ -165,6 +165,7 @@ func main() {
 	runHistory(r)
 	runManyLabels(r)
 	runLabelShapes(r)
+	runLabelWindows(r)
 	runReal(r)
 	runPlugins(r)
 	cliStage(r)
@@ -533,6 +534,7 @@ func runPlugins(r *mon.Run) {
 	perr := plug.Step{Send: plug.Stanza("error", []string{"internal"}, []byte("token not present"))}
 	perr0 := plug.Step{Send: plug.Stanza("error", []string{"recipient", "0"}, []byte("bad recipient"))}
 	lbl := plug.Step{Send: plug.Stanza("labels", []string{"a"}, nil)}
+	lbl0 := plug.Step{Send: plug.Stanza("labels", nil, nil)}
 	done := plug.Step{Send: plug.Stanza("done", nil, nil), NoReply: true}
 	failing := []struct {
 		name string
@@ -548,6 +550,14 @@ func runPlugins(r *mon.Run) {
 		{"stanza-then-exit", &plug.Script{Steps: []plug.Step{rs0}, End: "exit"}},
 		{"stanza-then-closed-stdout", &plug.Script{Steps: []plug.Step{rs0}, End: "linger"}},
 		{"stanza-error-in-one-write", &plug.Script{Steps: []plug.Step{rs0, perr, done}, Burst: true}},
+		// a plugin that declares its labels twice (the protocol allows one
+		// labels stanza): whichever of the two sets would be taken, the
+		// session has failed
+		{"labels-empty-then-labels-a", &plug.Script{Steps: []plug.Step{rs0, lbl0, lbl, done}}},
+		{"labels-a-then-labels-empty", &plug.Script{Steps: []plug.Step{rs0, lbl, lbl0, done}}},
+		{"labels-empty-twice", &plug.Script{Steps: []plug.Step{rs0, lbl0, lbl0, done}}},
+		{"labels-a-twice", &plug.Script{Steps: []plug.Step{rs0, lbl, lbl, done}}},
+		{"labels-empty-then-a-before-the-stanza", &plug.Script{Steps: []plug.Step{lbl0, lbl, rs0, done}}},
 	}
 	xr := keys.P("X1").Recipient
 	for _, f := range failing {
